@@ -17,7 +17,8 @@ TECHNIQUE = ('bounded exhaustive enumeration of report trees (every ordered tree
              'from an 11-title alphabet (incl. dotted titles) incl. reserved, repeated and invalid names x result placements) written by the real Rst / '
              'FormattedRst.write; the written directory is parsed back (pages, anchors, toctree entries, image targets) and compared with '
              'the tree')
-RULE = ('trees: root + k <= 3 sub-sections in every ordered-tree shape (1 + 1 + 2 + 5 shapes, depth <= 3) [thorough: k = 4, and the chain of '
+RULE = ('[session: one Rst object formats two of 6 report trees one after the other, both are written afterwards in either order] ' +
+        'trees: root + k <= 3 sub-sections in every ordered-tree shape (1 + 1 + 2 + 5 shapes, depth <= 3) [thorough: k = 4, and the chain of '
         'depth 5 and the rejected depth 6]; titles of the sub-sections: every assignment over {A, B, index, conf, figures, v1.0, v1.5, "A " and "index " (trailing blank), "a/b", "..", '
         '"x\\0", ""}; results: none / one per section / two in the last section and one in the root (a failing TestEqual = table, a '
         'TestStudent = plots; MplPlot.save replaced by a stub creating the file); oracle after write(path): one page per section at '
